@@ -169,6 +169,19 @@ def sum_add_job(it, func, args, kwargs):
         hook(it, fn, rest)
     r = it.call(fn, rest, {})
     append_sent(it, r)
+    sender = g.get("sender")
+    if sender is not None and ops.specialize(it, r) is not None:
+        from spec import wire
+
+        prev = it.formula_mode
+        it.formula_mode = True
+        try:
+            ok = ops.truth(it, it.call(wire.addressed, [r, sender], {}))
+        finally:
+            it.formula_mode = prev
+        cur = ops.truth(it, g.get("jobs_ok", True))
+        both = z3.And(z3.BoolVal(cur) if isinstance(cur, bool) else cur, z3.BoolVal(ok) if isinstance(ok, bool) else ok)
+        g["jobs_ok"] = ops.simplify_bool(both) if hasattr(ops, "simplify_bool") else ops.mk("bool", z3.simplify(both))
     return None
 
 
